@@ -73,6 +73,13 @@ func NewWaitCloserFromParent(p WaitCloser, stopFun func(error)) WaitCloser {
 		case <-p.Done():
 			wc.Close(p.Error())
 		case <-wc.Done():
+			// wc.ctx is a child of the parent's context : when the parent is closed both
+			// channels are ready and this branch may be chosen, wc must still be closed
+			select {
+			case <-p.Done():
+				wc.Close(p.Error())
+			default:
+			}
 		}
 		return
 	}, nil)
@@ -93,6 +100,11 @@ func NewWaitCloserFromContext(pctx context.Context, stopFun func(error)) WaitClo
 		case <-pctx.Done():
 			wc.Close(pctx.Err())
 		case <-wc.Done():
+			// wc.ctx is a child of pctx : when pctx is cancelled both channels are ready
+			// and this branch may be chosen, wc must still be closed
+			if pctx.Err() != nil {
+				wc.Close(pctx.Err())
+			}
 		}
 	}, nil)
 
